@@ -16,7 +16,7 @@ theorem dropWhile_ne_append (cur r : Bytes) (h : NL ∉ cur) :
   | cons c cur ih =>
     have hc : c ≠ NL := fun e => h (by simp [e])
     have : NL ∉ cur := fun m => h (by simp [m])
-    simp [List.dropWhile_cons, hc, ih this]
+    simp [hc, ih this]
 
 theorem takeWhile_ne_append (cur r : Bytes) (h : NL ∉ cur) :
     (cur ++ r).takeWhile (· != NL) = cur ++ r.takeWhile (· != NL) := by
@@ -25,18 +25,18 @@ theorem takeWhile_ne_append (cur r : Bytes) (h : NL ∉ cur) :
   | cons c cur ih =>
     have hc : c ≠ NL := fun e => h (by simp [e])
     have : NL ∉ cur := fun m => h (by simp [m])
-    simp [List.takeWhile_cons, hc, ih this]
+    simp [hc, ih this]
 
 theorem unline_full (cur : Bytes) (h : NL ∉ cur) : unline (cur ++ [NL]) = cur ++ [NL] := by
   unfold unline
   rw [dropWhile_ne_append cur [NL] h]
-  simp [List.dropWhile_cons]
+  simp
 
 theorem unline_noNewline (cur : Bytes) (h : NL ∉ cur) : unline (cur ++ noNewline) = cur := by
   obtain ⟨t, ht, hne⟩ := noNewline_shape
   unfold unline
   rw [dropWhile_ne_append cur _ h, takeWhile_ne_append cur _ h, ht]
-  simp [List.dropWhile_cons, List.takeWhile_cons, hne]
+  simp [hne]
 
 theorem unlines_linesGo (cur b : Bytes) (h : NL ∉ cur) : unlines (linesGo cur b) = cur ++ b := by
   induction b generalizing cur with
